@@ -56,9 +56,11 @@ theorem SeqInv.pres {s s' : St} {o : Op} (hi : SeqInv s) (h : step s o = some s'
     simp only [step] at h
     split at h
     · rename_i e rest hinf hq
-      simp only [Option.some.injEq] at h; subst h
-      simp only [hinf, statusOf] at hi
-      simp [logStatus, hi, statusOf]
+      split at h
+      · simp only [Option.some.injEq] at h; subst h
+        simp only [hinf, statusOf] at hi
+        simp [logStatus, hi, statusOf]
+      · simp only [Option.some.injEq] at h; subst h; exact hi
     · simp at h
   | send =>
     simp only [step] at h
@@ -74,6 +76,17 @@ theorem SeqInv.pres {s s' : St} {o : Op} (hi : SeqInv s) (h : step s o = some s'
     · rename_i e ph hinf
       simp only [Option.some.injEq] at h; subst h
       cases ph <;> simp only [hinf, statusOf] at hi <;> simp [logStatus, hi, statusOf]
+    · simp at h
+  | setopt b => simp only [step, Option.some.injEq] at h; subst h; exact hi
+  | bsend t =>
+    simp only [step] at h
+    split at h
+    · simp only [Option.some.injEq] at h; subst h; exact hi
+    · simp at h
+  | bfinish t r =>
+    simp only [step] at h
+    split at h
+    · simp only [Option.some.injEq] at h; subst h; exact hi
     · simp at h
 
 /-! ### queue order -/
@@ -130,10 +143,16 @@ theorem OrdInv.pres {s s' : St} {o : Op} (hi : OrdInv s) (h : step s o = some s'
     simp only [MitmVerif.C53.step] at h
     split at h
     · rename_i e rest hinf hq
-      simp only [Option.some.injEq] at h; subst h
       have hs := hi.sorted
       rw [hq] at hs
       simp only [List.map_cons, List.pairwise_cons] at hs
+      split at h
+      rotate_left
+      · -- background dispatch: the sequential log is not touched
+        simp only [Option.some.injEq] at h; subst h
+        exact ⟨hs.2, fun e' he' => hi.below e' (by rw [hq]; exact List.mem_cons_of_mem _ he'),
+          fun t ht e' he' => hi.ahead t ht e' (by rw [hq]; exact List.mem_cons_of_mem _ he'), hi.old, hi.order⟩
+      simp only [Option.some.injEq] at h; subst h
       constructor
       · exact hs.2
       · intro e' he'; exact hi.below e' (by rw [hq]; exact List.mem_cons_of_mem _ he')
@@ -166,6 +185,17 @@ theorem OrdInv.pres {s s' : St} {o : Op} (hi : OrdInv s) (h : step s o = some s'
       exact ⟨hi.sorted, hi.below, by simpa [startTickets] using hi.ahead, by simpa [startTickets] using hi.old,
         by simpa [startTickets] using hi.order⟩
     · simp at h
+  | setopt b => simp only [MitmVerif.C53.step, Option.some.injEq] at h; subst h; exact ⟨hi.sorted, hi.below, hi.ahead, hi.old, hi.order⟩
+  | bsend t =>
+    simp only [MitmVerif.C53.step] at h
+    split at h
+    · simp only [Option.some.injEq] at h; subst h; exact ⟨hi.sorted, hi.below, hi.ahead, hi.old, hi.order⟩
+    · simp at h
+  | bfinish t r =>
+    simp only [MitmVerif.C53.step] at h
+    split at h
+    · simp only [Option.some.injEq] at h; subst h; exact ⟨hi.sorted, hi.below, hi.ahead, hi.old, hi.order⟩
+    · simp at h
 
 /-! ### only replayable flows are queued -/
 
@@ -180,7 +210,7 @@ theorem check_none_replayable {s : St} {i : Nat} (h : check s i = none) :
   · rename_i a ha
     refine ⟨a, ha, ?_⟩
     rcases a with ⟨l, ic, ht, hr, hc, w⟩
-    cases hx : isInflight s i <;> cases l <;> cases ic <;> cases ht <;> cases hr <;> cases hc <;> cases w <;>
+    cases hx : isInflight s i <;> cases hy : isLive s i <;> cases l <;> cases ic <;> cases ht <;> cases hr <;> cases hc <;> cases w <;>
       simp_all [replayable]
 
 theorem ReplInv.presStart {s : St} (hi : ReplInv s) (i : Nat) : ReplInv (startOne s i) := by
@@ -194,7 +224,7 @@ theorem ReplInv.presStart {s : St} (hi : ReplInv s) (i : Nat) : ReplInv (startOn
       simp only [List.mem_append, List.mem_singleton] at he
       rcases he with he | rfl
       · exact hi e he
-      · exact check_none_replayable hc
+      · exact check_none_replayable (s := s) hc
   · exact hi
 
 theorem ReplInv.pres {s s' : St} {o : Op} (hi : ReplInv s) (h : step s o = some s') : ReplInv s' := by
@@ -214,8 +244,8 @@ theorem ReplInv.pres {s s' : St} {o : Op} (hi : ReplInv s) (h : step s o = some 
     simp only [MitmVerif.C53.step] at h
     split at h
     · rename_i e rest hinf hq
-      simp only [Option.some.injEq] at h; subst h
-      intro e' he'; exact hi e' (by rw [hq]; exact List.mem_cons_of_mem _ he')
+      split at h <;> (simp only [Option.some.injEq] at h; subst h
+                      intro e' he'; exact hi e' (by rw [hq]; exact List.mem_cons_of_mem _ he'))
     · simp at h
   | send =>
     simp only [MitmVerif.C53.step] at h
@@ -223,6 +253,17 @@ theorem ReplInv.pres {s s' : St} {o : Op} (hi : ReplInv s) (h : step s o = some 
     · simp only [Option.some.injEq] at h; subst h; exact hi
     · simp at h
   | finish r =>
+    simp only [MitmVerif.C53.step] at h
+    split at h
+    · simp only [Option.some.injEq] at h; subst h; exact hi
+    · simp at h
+  | setopt b => simp only [MitmVerif.C53.step, Option.some.injEq] at h; subst h; exact hi
+  | bsend t =>
+    simp only [MitmVerif.C53.step] at h
+    split at h
+    · simp only [Option.some.injEq] at h; subst h; exact hi
+    · simp at h
+  | bfinish t r =>
     simp only [MitmVerif.C53.step] at h
     split at h
     · simp only [Option.some.injEq] at h; subst h; exact hi
@@ -266,7 +307,7 @@ theorem BackInv.presStart {s : St} (hi : BackInv s) (i : Nat) : BackInv (startOn
           rcases Nat.lt_or_ge i s.fs.length with h | h
           · exact h
           · simp [List.getElem?_eq_none h] at hg
-        refine ⟨{ cur := { g.cur with resp := false, err := false, marked := true }, backup := some g.cur }, ?_, rfl⟩
+        refine ⟨{ g with cur := { g.cur with resp := false, err := false, marked := true }, backup := some g.cur }, ?_, rfl⟩
         simp [hlt, hfresh]
   · exact hi
 
@@ -295,8 +336,16 @@ theorem BackInv.pres {s s' : St} {o : Op} (hi : BackInv s) (h : step s o = some 
     simp only [MitmVerif.C53.step] at h
     split at h
     · rename_i e rest hinf hq
-      simp only [Option.some.injEq] at h; subst h
-      intro e' he'; exact hi e' (by rw [hq]; exact List.mem_cons_of_mem _ he')
+      have key : ∀ e' ∈ rest, e'.fresh = true →
+          ∃ f', (markLive s.fs e.idx)[e'.idx]? = some f' ∧ f'.backup = some e'.pre := by
+        intro e' he' hfresh
+        obtain ⟨f, hf, hb⟩ := hi e' (by rw [hq]; exact List.mem_cons_of_mem _ he') hfresh
+        unfold markLive
+        split
+        · rename_i g hg
+          exact keep_backup hf hb hg _ (by intro c hc; simp [hc])
+        · exact ⟨f, hf, hb⟩
+      split at h <;> (simp only [Option.some.injEq] at h; subst h; exact key)
     · simp at h
   | send =>
     simp only [MitmVerif.C53.step] at h
@@ -311,6 +360,26 @@ theorem BackInv.pres {s s' : St} {o : Op} (hi : BackInv s) (h : step s o = some 
       intro e he hfresh
       obtain ⟨f, hf, hb⟩ := hi e he hfresh
       show ∃ f', (finishFlow s.fs e0.idx r)[e.idx]? = some f' ∧ f'.backup = some e.pre
+      unfold finishFlow
+      split
+      · rename_i g hg
+        exact keep_backup hf hb hg _ (by intro c hc; simp [hc])
+      · exact ⟨f, hf, hb⟩
+    · simp at h
+  | setopt b => simp only [MitmVerif.C53.step, Option.some.injEq] at h; subst h; exact hi
+  | bsend t =>
+    simp only [MitmVerif.C53.step] at h
+    split at h
+    · simp only [Option.some.injEq] at h; subst h; exact hi
+    · simp at h
+  | bfinish t r =>
+    simp only [MitmVerif.C53.step] at h
+    split at h
+    · rename_i p hp
+      simp only [Option.some.injEq] at h; subst h
+      intro e he hfresh
+      obtain ⟨f, hf, hb⟩ := hi e he hfresh
+      show ∃ f', (finishFlow s.fs p.1.idx r)[e.idx]? = some f' ∧ f'.backup = some e.pre
       unfold finishFlow
       split
       · rename_i g hg
@@ -354,7 +423,7 @@ theorem revertAll_restores : ∀ (idxs : List Nat) (fs : List FState) (i : Nat) 
         rcases Nat.lt_or_ge j fs.length with h | h
         · exact h
         · simp [List.getElem?_eq_none h] at hf
-      have : (revert fs j)[j]? = some { cur := b, backup := none } := by
+      have : (revert fs j)[j]? = some { f with cur := b, backup := none } := by
         unfold revert; rw [hf]; simp only [hb]; simp [hlt]
       have := revertAll_keep js (revert fs j) j _ this rfl
       simp only [revertAll] at this
@@ -421,6 +490,86 @@ theorem Reach.extend {attrs : List Attr} {fs : List FState} {s s' : St} {os : Li
   obtain ⟨os0, h0⟩ := h
   exact ⟨os0 ++ os, by rw [run_append os0 os _ _ h0]; exact hr⟩
 
+theorem bgWork_append (l : List (Entry × Phase)) (p : Entry × Phase) : bgWork (l ++ [p]) = bgWork l + phaseWork p.2 := by
+  induction l with
+  | nil => simp [bgWork]
+  | cons q qs ih => simp [bgWork, ih]; omega
+
+theorem phaseWork_pos (ph : Phase) : 1 ≤ phaseWork ph := by cases ph <;> simp [phaseWork]
+
+theorem markSent_le (t : Nat) (p : Entry × Phase) : phaseWork (markSent t p).2 ≤ phaseWork p.2 := by
+  unfold markSent
+  split
+  · rename_i hc
+    simp only [Bool.and_eq_true, beq_iff_eq] at hc
+    rw [hc.2]; simp [phaseWork]
+  · exact Nat.le_refl _
+
+theorem markSent_lt (t : Nat) (p : Entry × Phase) (h : (p.1.ticket == t && p.2 == .taken) = true) :
+    phaseWork (markSent t p).2 + 1 ≤ phaseWork p.2 := by
+  unfold markSent
+  simp only [h, if_true]
+  simp only [Bool.and_eq_true, beq_iff_eq] at h
+  rw [h.2]; simp [phaseWork]
+
+theorem bgWork_map_le (t : Nat) : ∀ (m : List (Entry × Phase)), bgWork (m.map (markSent t)) ≤ bgWork m := by
+  intro m
+  induction m with
+  | nil => simp [bgWork]
+  | cons x xs ihx =>
+    simp only [List.map_cons, bgWork]
+    have := markSent_le t x
+    omega
+
+theorem bgWork_send : ∀ (l : List (Entry × Phase)) (t : Nat),
+    l.any (fun p => p.1.ticket == t && p.2 == .taken) = true →
+    bgWork (l.map (markSent t)) + 1 ≤ bgWork l := by
+  intro l t
+  induction l with
+  | nil => intro h; simp at h
+  | cons q qs ih =>
+    intro h
+    simp only [List.map_cons, bgWork]
+    cases hq : (q.1.ticket == t && q.2 == Phase.taken) with
+    | true =>
+      have := markSent_lt t q hq
+      have := bgWork_map_le t qs
+      omega
+    | false =>
+      simp only [List.any_cons, hq, Bool.false_or] at h
+      have := ih h
+      have := markSent_le t q
+      omega
+
+theorem bgWork_finish : ∀ (l : List (Entry × Phase)) (t : Nat) (p : Entry × Phase),
+    l.find? (fun p => p.1.ticket == t) = some p →
+    bgWork (l.filter (fun q => !(q.1.ticket == t))) + 1 ≤ bgWork l := by
+  intro l t
+  induction l with
+  | nil => intro p h; simp at h
+  | cons q qs ih =>
+    intro p h
+    have hmono : ∀ (m : List (Entry × Phase)), bgWork (m.filter (fun q => !(q.1.ticket == t))) ≤ bgWork m := by
+      intro m
+      induction m with
+      | nil => simp [bgWork]
+      | cons x xs ihx =>
+        simp only [List.filter_cons]
+        split
+        · simp only [bgWork]; omega
+        · simp only [bgWork]; omega
+    simp only [List.filter_cons]
+    by_cases hq : (q.1.ticket == t) = true
+    · simp only [hq, Bool.not_true, Bool.false_eq_true, if_false, bgWork]
+      have := hmono qs
+      have := phaseWork_pos q.2
+      omega
+    · have hq' : (q.1.ticket == t) = false := by simpa using hq
+      simp only [hq', Bool.not_false, if_true, bgWork]
+      simp only [List.find?_cons, hq'] at h
+      have := ih p h
+      omega
+
 /-- every loop / server operation strictly decreases the variant -/
 theorem variant_step {s s' : St} {o : Op} (ho : isLoopOp o = true) (h : step s o = some s') :
     variant s' + 1 ≤ variant s := by
@@ -432,22 +581,42 @@ theorem variant_step {s s' : St} {o : Op} (ho : isLoopOp o = true) (h : step s o
     simp only [MitmVerif.C53.step] at h
     split at h
     · rename_i e rest hinf hq
-      simp only [Option.some.injEq] at h; subst h
-      simp [variant, hinf, hq]; omega
+      split at h
+      · simp only [Option.some.injEq] at h; subst h
+        simp [variant, hinf, hq]; omega
+      · simp only [Option.some.injEq] at h; subst h
+        simp [variant, hinf, hq, bgWork_append, bgWork, phaseWork]; omega
     · simp at h
   | send =>
     simp only [MitmVerif.C53.step] at h
     split at h
     · rename_i e hinf
       simp only [Option.some.injEq] at h; subst h
-      simp [variant, hinf]
+      simp [variant, hinf]; omega
     · simp at h
   | finish r =>
     simp only [MitmVerif.C53.step] at h
     split at h
     · rename_i e ph hinf
       simp only [Option.some.injEq] at h; subst h
-      cases ph <;> simp [variant, hinf]
+      cases ph <;> simp [variant, hinf] <;> omega
+    · simp at h
+  | setopt _ => simp [isLoopOp] at ho
+  | bsend t =>
+    simp only [MitmVerif.C53.step] at h
+    split at h
+    · rename_i hany
+      simp only [Option.some.injEq] at h; subst h
+      have := bgWork_send s.bg t hany
+      simp only [variant]; omega
+    · simp at h
+  | bfinish t r =>
+    simp only [MitmVerif.C53.step] at h
+    split at h
+    · rename_i p hp
+      simp only [Option.some.injEq] at h; subst h
+      have := bgWork_finish s.bg t p hp
+      simp only [variant]; omega
     · simp at h
 
 theorem variant_run : ∀ (os : List Op) (s s' : St), (∀ o ∈ os, isLoopOp o = true) →
@@ -475,12 +644,13 @@ theorem progress (s : St) (h : quiescent s = false) :
   | some p =>
     right; intro r
     obtain ⟨e, ph⟩ := p
-    exact ⟨{ s with inflight := none, fs := finishFlow s.fs e.idx r, log := .fin e.ticket :: s.log }, by simp [MitmVerif.C53.step, hinf]⟩
+    exact Option.isSome_iff_exists.mp (by simp [MitmVerif.C53.step, hinf])
   | none =>
     left
     cases hq : s.queue with
     | nil => simp [hinf, hq] at h
-    | cons e rest => exact ⟨{ s with inflight := some (e, .taken), queue := rest, log := .start e.ticket :: s.log }, by simp [MitmVerif.C53.step, hinf, hq]⟩
+    | cons e rest =>
+      exact Option.isSome_iff_exists.mp (by cases hs : s.seq <;> simp [MitmVerif.C53.step, hinf, hq, hs])
 
 /-- a fair completion exists and is short: at most `variant s` loop/server operations drain everything -/
 theorem drain_exists : ∀ (n : Nat) (s : St), variant s ≤ n →
